@@ -39,6 +39,16 @@ class FaultExc(Exception):
     pass
 
 
+class UnprintableFaultExc(FaultExc):
+    """an exception object that cannot be rendered (`str()` of it raises - its message refers to something already released): how it
+    is logged must not decide what happens to the process"""
+
+    def __str__(self):
+        raise TypeError('this exception cannot be rendered')
+
+    __repr__ = __str__
+
+
 class FalsyFaultExc(FaultExc):
     """an exception object that is falsy (an error that doubles as the - here empty - collection of its problems): which exception
     it is must not depend on its truth value"""
@@ -89,7 +99,8 @@ class Proc(plumpy.Process):
     def __init__(self, *a, fault=None, **kw):
         self._hook_counts = {}
         self._fault = fault
-        self._fault_exc = (FalsyFaultExc if (fault is not None and len(fault) > 2 and isinstance(fault[2], int) and fault[2] % 2 == 0) else FaultExc)('injected')
+        occ = fault[2] if (fault is not None and len(fault) > 2 and isinstance(fault[2], int)) else 1
+        self._fault_exc = (FalsyFaultExc if occ % 2 == 0 else FaultExc)('injected')
         self._trace = []
         self._acts = []
         super().__init__(*a, **kw)
@@ -149,7 +160,9 @@ class FaultListener(plumpy.ProcessListener):
         f = self.fault
         if f is not None and f[0] == 'listener' and f[1] == name and f[2] == n:
             self.fired = True
-            raise FaultExc('listener')
+            # every other listener fault is an exception that cannot be rendered: a listener's failure is logged and ignored, and
+            # how it is logged must not decide what happens to the process
+            raise (UnprintableFaultExc if n % 2 == 1 else FaultExc)('listener')
 
     def on_process_running(self, p): self._hit('on_process_running')
     def on_process_waiting(self, p): self._hit('on_process_waiting')
@@ -532,7 +545,7 @@ def gen_cases(ctx):
     for sc in calls + both + [{**c, 0: ['pause'], 3: ['play']} for c in calls if 0 not in c and 3 not in c]:
         cases.append(dict(fault=('callback', 'cb', 1, 'before'), schedule=sc))
     for h in LISTENER_HOOKS:
-        for o in (1, 2):
+        for o in (1, 2, 3):
             for sc in plain + kills + pp[::2]:
                 cases.append(dict(fault=('listener', h, o, 'before'), schedule=sc))
     for sc in plain + kills:
